@@ -10,7 +10,8 @@ RULE = ("engine proc: the real Processor in lock-step (trackProgress) with a scr
         "until answered; histories of 1-3 applications: transactions (real flatbuffers through processBinary/AggregateInto), harvest "
         "triggers with every mask (all, default data, single and combined event categories), replies in any order relative to later "
         "events, restarts, agent queries, clock advances, final CleanExit. Non-trivial = history contains transactions, a trigger and a "
-        "reply; distinct = distinct op lists.")
+        "reply; distinct = distinct op lists."
+        " Batches stale (a tick of a timer of a run that has been shut down reaches the processor after the reconnect) and window (the harvest and traffic of another application handled between the failure of a request and its hand-back: park / unpark).")
 ASSUMPTIONS = ['run ids issued by the collector are distinct; one outstanding connect attempt per application', 'daemon-generated metrics other than the Seen/Sent/Dropped rows are filtered out of the comparison', 'a harvest trigger for a run that has already been shut down is not generated', 'sha256 is treated as injective on the policy-name lists compared']
 EXPLANATION = "L2 processor machine in Lean; every request the real processor makes is compared with the model's; the exactly-once ledger Spec runs on the implementation's requests."
 TECHNIQUE = "Lean 4 theorems (frame lemma: an event for one run leaves every other run untouched; request parameters come from the harvested app; AppKey iff eight components over the regenerated field list) + lock-step correspondence with 1-3 tenants and an isolation Spec on the implementation's requests"
